@@ -251,6 +251,8 @@ fn c01_hdr_accessors() {
     h.set_need_reply(n);
     let f2 = h.flags;
     assert!(h.is_need_reply() == n && (f2 | 8) == (f1 | 8));
+    assert!(f2 == if n { f1 | 8 } else { f1 & !8 });
+    if f1 == 1 { assert!(f2 == if n { 9 } else { 1 }); }
     let sz: u32 = kani::any();
     h.set_size(sz);
     assert!(h.get_size() == sz);
